@@ -17,8 +17,9 @@ ASSUMPTIONS = [
     "supplied names and names bound by the program are ordinary identifiers; programs binding `__` or `builtins` are the recorded finding",
     "eval delegates to the built-in eval: compared on the implementation only",
 ]
-NAMES = {i: n for i, n in enumerate("abcdefgh", start=10)}
-GNAMES = {i: n for i, n in enumerate(["g1", "g2", "g3"], start=20)}
+# ordinary identifiers of every shape: underscore-prefixed, dunder-prefixed, upper-case, with digits, non-ASCII
+NAMES = {i: n for i, n in enumerate(["a", "b", "_c", "_d1", "e", "F", "__g", "h2", "_", "\u00e9t"], start=10)}
+GNAMES = {i: n for i, n in enumerate(["g1", "_g2", "G3"], start=20)}
 
 
 def gen_case(rng, reserved=False):
@@ -214,7 +215,7 @@ def run(ctx, model_ok):
             ctx.tie_broken("correspondence", "model/Sandbox.v and tracer.exec disagree on %d of %d cases" % (len(mism), len(cases)), json.dumps(mism[0])[:3000])
     return {
         "evaluations": len(cases), "distinct_nontrivial": len({lib.digest(c) for c in cases if len(c["ops"]) >= 2}),
-        "rule": "straight-line programs (<=6 bindings / deletions / global bindings over 8 local and 3 global names, optional raise at a random "
+        "rule": "straight-line programs (<=6 bindings / deletions / global bindings over 10 local and 3 global names (plain, underscore- and dunder-prefixed, upper-case, `_`, non-ASCII), optional raise at a random "
                 "position) x supplied local and global mappings x {instrumented under an observing tracer, not instrumented, NoopTracer}; plus an "
                 "expression for eval in 40% of cases; one case binding the reserved name `builtins`; non-trivial = >=2 operations",
         "samples": [{k: cases[1][k] for k in ("L", "G", "text", "instrument", "tracer", "expr")}], "traces_validated": validated,
